@@ -233,6 +233,145 @@ static void check_c17(const std::string & only, bool do_factory) {
     }
 }
 
+/* ---- C02: reference images survive decode -> encode, also after single-field overwrites ---- */
+struct Cur2 { volatile long off; volatile int val; volatile int width; };
+static Cur2 * g_cur2;
+
+/* variant selectors whose alternatives have the same encoded length (the others show up as a length change) */
+static int variant_signature(ObjectHeaderBase & o) {
+    if (auto * se = dynamic_cast<SerialEvent *>(&o))
+        return (se->flags & SerialEvent::SingleByte) ? 1 : (se->flags & SerialEvent::CompactByte) ? 2 : 3;
+    if (auto * ce = dynamic_cast<CanErrorFrame *>(&o)) return ce->length > 0 ? 1 : 2;
+    return 0;
+}
+static int g_last_variant;
+
+static bool decode_encode(const std::vector<uint8_t> & img, std::vector<uint8_t> & out, MemFile * layout, std::string & why,
+                          std::unique_ptr<ObjectHeaderBase> * keep = nullptr) {
+    if (img.size() < 16) { why = "short"; return false; }
+    uint32_t type = rd32(img, 12);
+    std::unique_ptr<ObjectHeaderBase> o(File::createObject(static_cast<ObjectType>(type)));
+    if (!o) { why = "factory returns nothing"; return false; }
+    MemFile in(img);
+    try { o->read(in); } catch (...) { why = "decoder throws"; return false; }
+    if (!in.good() || in.bad_seek) { why = "decoder runs past the image"; return false; }
+    if (in.g != img.size()) { why = "decoder consumed " + std::to_string(in.g) + " of " + std::to_string(img.size()); return false; }
+    g_last_variant = variant_signature(*o);
+    MemFile mf;
+    mf.record = true;
+    try { o->write(mf); } catch (...) { why = "encoder throws"; return false; }
+    out = mf.data;
+    if (layout) *layout = mf;
+    if (keep) *keep = std::move(o);
+    return true;
+}
+
+static void check_c02_image(const std::vector<uint8_t> & img, const std::string & name, int values_mode) {
+    std::vector<uint8_t> enc;
+    MemFile lay;
+    std::string why;
+    std::unique_ptr<ObjectHeaderBase> obj;
+    g_eval++;
+    if (!decode_encode(img, enc, &lay, why, &obj)) { report("C02", name + "|decode", "reference image does not decode completely: " + why, name); return; }
+    if (enc != img) {
+        size_t d = 0;
+        while (d < enc.size() && d < img.size() && enc[d] == img[d]) d++;
+        report("C02", name + "|identity", "decode->encode of the reference image differs at offset " + std::to_string(d) + " (sizes " +
+               std::to_string(img.size()) + " -> " + std::to_string(enc.size()) + ")", name);
+        return;
+    }
+    g_distinct.insert(name);
+    const int variant0 = g_last_variant;
+    /* byte ranges of fields the encoder recomputes by design (pre-processing table + the size fields of the base header) */
+    std::vector<char> recomputed(img.size(), 0);
+    {
+        rv::ListV l;
+        refl::dispatch(*obj, l);
+        const refl::ClassInfo * ci = refl::class_of(*obj);
+        std::set<std::string> pre = {"headerSize", "objectSize"};
+        for (auto & r : refl::preprocessed_fields()) pre.insert(r.member);   /* by leaf name, any class (nested variants included) */
+        (void)ci;
+        for (auto & sc : l.scalars) {
+            std::string leaf = sc.path.substr(sc.path.rfind('.') == std::string::npos ? 0 : sc.path.rfind('.') + 1);
+            if (!pre.count(leaf)) continue;
+            for (auto & c : lay.chunks)
+                if (c.src == sc.addr) for (size_t i = c.off; i < c.off + c.len && i < recomputed.size(); i++) recomputed[i] = 1;
+        }
+    }
+    /* filler the encoder emits by design (alignment padding, unused parts of unions): zero bytes whose source is
+     * neither a member of the object nor one of its containers; such bytes are not field values */
+    std::vector<char> filler(img.size(), 0);
+    {
+        rv::ListV l2;
+        refl::dispatch(*obj, l2);
+        const char * ob = reinterpret_cast<const char *>(obj.get());
+        const refl::ClassInfo * ci2 = refl::class_of(*obj);
+        size_t osz = ci2 ? ci2->size : 0;
+        for (auto & c : lay.chunks) {
+            const char * sp = (const char *)c.src;
+            bool member = sp >= ob && sp < ob + osz;
+            for (auto & v : l2.vars) if (v.count && sp >= (const char *)v.data && sp < (const char *)v.data + v.count * v.elem) member = true;
+            if (!member) for (size_t i = c.off; i < c.off + c.len && i < filler.size(); i++) filler[i] = 1;
+        }
+    }
+    uint32_t objectSize = rd32(img, 8);
+    size_t end = std::min<size_t>(objectSize, img.size());
+    std::vector<uint8_t> d = img, out;
+    auto try_derived = [&](size_t off, int width) {
+        g_eval++;
+        g_cur2->off = (long)off; g_cur2->width = width;
+        std::string w;
+        if (!decode_encode(d, out, nullptr, w)) return;            /* filter: must still decode completely */
+        if (out.size() != d.size()) return;                       /* filter: same shape = same encoded length */
+        if (g_last_variant != variant0) return;                   /* filter: same variant selector */
+        for (size_t i = 0; i < d.size(); i++) {
+            if (out[i] == d[i]) continue;
+            if (recomputed[i] && out[i] == img[i]) continue;      /* recomputed by design: equals the recomputed value */
+            if (filler[i] && out[i] == 0) continue;               /* filler by design: written as zero */
+            std::ostringstream s;
+            s << "after overwriting " << width << " byte(s) at offset " << off << " with 0x";
+            for (int k = width - 1; k >= 0; k--) { char b[4]; snprintf(b, sizeof b, "%02x", d[off + k]); s << b; }
+            s << ": re-encoding differs at offset " << i << " (decoded image has 0x" << std::hex << (int)d[i] << ", re-encoded 0x" << (int)out[i] << ")";
+            report("C02", name + "|field@" + std::to_string(i), s.str(), name);
+            return;
+        }
+    };
+    /* every single byte */
+    for (size_t off = 16; off < end; off++) {
+        uint8_t orig = img[off];
+        std::vector<int> vals;
+        if (values_mode == 0) { for (int v : {0x00, 0x01, 0x7f, 0x80, 0xfe, 0xff, orig ^ 0x01, orig ^ 0x80}) vals.push_back(v & 0xff); }
+        else for (int v = 0; v < 256; v++) vals.push_back(v);
+        for (int v : vals) {
+            if (v == orig) continue;
+            d[off] = (uint8_t)v;
+            g_cur2->val = v;
+            try_derived(off, 1);
+        }
+        d[off] = orig;
+    }
+    /* aligned 2/4/8-byte groups with boundary values */
+    for (int width : {2, 4, 8})
+        for (size_t off = 16; off + width <= end; off += width) {
+            for (int pat = 0; pat < 5; pat++) {
+                for (int k = 0; k < width; k++) {
+                    uint8_t b = 0;
+                    switch (pat) {
+                    case 0: b = 0; break;
+                    case 1: b = k == 0 ? 1 : 0; break;
+                    case 2: b = k == width - 1 ? 0x7f : 0xff; break;
+                    case 3: b = k == width - 1 ? 0x80 : 0x00; break;
+                    case 4: b = 0xff; break;
+                    }
+                    d[off + k] = b;
+                }
+                g_cur2->val = pat;
+                try_derived(off, width);
+            }
+            for (int k = 0; k < width; k++) d[off + k] = img[off + k];
+        }
+}
+
 static std::string result_json(const std::string & mode, const vx::Args & args, const std::vector<std::string> & samples, double t0, const std::string & cls) {
     std::ostringstream o;
     o << "{\"harness\":\"codec\",\"mode\":\"" << mode << "\",\"class\":\"" << cls << "\",\"params\":" << args.json() << ",\"evaluations\":" << g_eval
@@ -264,6 +403,47 @@ int main(int argc, char ** argv) {
     std::string errfile = vx::make_scratch() + "/err.txt";
     int rc = 0;
     int ci = 0;
+    if (mode == "c02") {
+        g_cur2 = (Cur2 *)mmap(0, sizeof(Cur2), PROT_READ | PROT_WRITE, MAP_SHARED | MAP_ANONYMOUS, -1, 0);
+        std::ifstream in(args.str("images", ""), std::ios::binary);
+        std::vector<std::pair<std::string, std::vector<uint8_t>>> imgs;
+        for (;;) {
+            uint32_t nl = 0, bl = 0;
+            if (!in.read((char *)&nl, 4)) break;
+            std::string nm(nl, 0);
+            in.read(&nm[0], nl);
+            in.read((char *)&bl, 4);
+            std::vector<uint8_t> b(bl);
+            in.read((char *)b.data(), bl);
+            imgs.push_back({nm, b});
+        }
+        int values_mode = (int)args.num("allvalues", 0);
+        for (size_t i = 0; i < imgs.size(); i++) {
+            if ((int)(i % nshards) != shard) continue;
+            fflush(stdout);
+            pid_t pid = fork();
+            if (pid == 0) {
+                int fd = open(errfile.c_str(), O_WRONLY | O_CREAT | O_TRUNC, 0644);
+                if (fd >= 0) { dup2(fd, 2); close(fd); }
+                double t0 = vx::now_s();
+                check_c02_image(imgs[i].second, imgs[i].first, values_mode);
+                printf("%s\n", result_json(mode, args, {imgs[i].first}, t0, imgs[i].first).c_str());
+                fflush(stdout);
+                _exit(g_viol.empty() ? 0 : 3);
+            }
+            int status = 0;
+            waitpid(pid, &status, 0);
+            if (WIFEXITED(status) && (WEXITSTATUS(status) == 0 || WEXITSTATUS(status) == 3)) { if (WEXITSTATUS(status)) rc = 1; continue; }
+            std::string err = vx::read_tail(errfile, 3000), sum;
+            std::istringstream es(err);
+            for (std::string line; std::getline(es, line);) if (line.find("SUMMARY") != std::string::npos || line.find("runtime error") != std::string::npos) { sum = line; break; }
+            printf("{\"harness\":\"codec\",\"mode\":\"c02\",\"class\":\"%s\",\"evaluations\":1,\"distinct\":0,\"samples\":[],\"violations\":[{\"prop\":\"C02\",\"key\":\"%s|crash\",\"what\":\"crash / sanitizer report while decoding or encoding the image with %d byte(s) at offset %ld overwritten (value/pattern %d): %s\",\"spec\":\"%s\",\"count\":1}],\"wall_s\":0}\n",
+                   vx::jesc(imgs[i].first).c_str(), vx::jesc(imgs[i].first).c_str(), g_cur2->width, g_cur2->off, g_cur2->val, vx::jesc(sum).c_str(), vx::jesc(imgs[i].first).c_str());
+            rc = 1;
+        }
+        vx::remove_scratch(vx::make_scratch());
+        return rc;
+    }
     for (auto & c : refl::classes()) {
         if (!only.empty() && only != c.name) continue;
         if ((ci++ % nshards) != shard) continue;
